@@ -123,6 +123,19 @@ def cmd_run(mid, props):
         rc, out = sh(["git", "-C", "/repo", "status", "--porcelain"])
         if out.strip():
             print("WARNING: /repo not clean after revert:\n" + out)
+    # harvest the killing input into the corpus of the property (only stateful/kernel transcripts)
+    for p, r in results.items():
+        for v in r["violation_lines"]:
+            try:
+                rp = v.split("replay=")[1].split()[0]
+                rec = json.load(open(rp))
+                lines = rec.get("transcript") or []
+                if lines and p not in ("C11", "C18", "C19"):
+                    cd = os.path.join(ROOT, "corpus", p)
+                    os.makedirs(cd, exist_ok=True)
+                    open(os.path.join(cd, mid + ".txt"), "w").write("\n".join(lines) + "\n")
+            except Exception as e:
+                print("corpus harvest failed:", e)
     m.setdefault("check_results", {}).update(results)
     m["caught_by"] = sorted(p for p, r in m["check_results"].items() if r["exit"] == 1)
     m["caught_with_concrete_input_by"] = sorted(p for p, r in m["check_results"].items()
